@@ -2,8 +2,8 @@
    these definitions of /repo; tools/srcfacts.py regenerates their normal-form digests on every run (coq/Gen/Src_*.v).
    Statements only. *)
 From Coq Require Import List String.
-From ME Require Import Model.SrcExpected Gen.Src_map Gen.Src_flat_map Gen.Src_common
-  Proofs.Src_ok_map Proofs.Src_ok_flat_map Proofs.Src_ok_common.
+From ME Require Import Model.SrcExpected Gen.Src_map Gen.Src_flat_map Gen.Src_common Gen.Src_fapply Gen.Src_fmap Gen.Src_fbase Gen.Src_fcheck
+  Proofs.Src_ok_map Proofs.Src_ok_flat_map Proofs.Src_ok_common Proofs.Src_ok_fapply Proofs.Src_ok_fmap Proofs.Src_ok_fbase Proofs.Src_ok_fcheck.
 
 (* more_executors/_impl/map.py *)
 Theorem c16_source_map : Src_map.facts = expected_map.
@@ -14,7 +14,23 @@ Proof. exact src_flat_map_ok. Qed.
 (* more_executors/_impl/common.py *)
 Theorem c16_source_common : Src_common.facts = expected_common.
 Proof. exact src_common_ok. Qed.
+(* more_executors/_impl/futures/apply.py *)
+Theorem c16_source_fapply : Src_fapply.facts = expected_fapply.
+Proof. exact src_fapply_ok. Qed.
+(* more_executors/_impl/futures/map.py *)
+Theorem c16_source_fmap : Src_fmap.facts = expected_fmap.
+Proof. exact src_fmap_ok. Qed.
+(* more_executors/_impl/futures/base.py *)
+Theorem c16_source_fbase : Src_fbase.facts = expected_fbase.
+Proof. exact src_fbase_ok. Qed.
+(* more_executors/_impl/futures/check.py *)
+Theorem c16_source_fcheck : Src_fcheck.facts = expected_fcheck.
+Proof. exact src_fcheck_ok. Qed.
 
 Print Assumptions c16_source_map.
 Print Assumptions c16_source_flat_map.
 Print Assumptions c16_source_common.
+Print Assumptions c16_source_fapply.
+Print Assumptions c16_source_fmap.
+Print Assumptions c16_source_fbase.
+Print Assumptions c16_source_fcheck.
